@@ -335,6 +335,39 @@ pub fn build_start(spec: &RecorderSpec) -> (Vec<u8>, StartStrings) {
     if L::gte(v, (3, 14)) {
         strings.match_id = Some(fill_utf8z(&mut rng, &mut s[MATCH_ID..MATCH_ID + 51]));
     }
+    if spec.empty_garbage {
+        for p in 0..4usize {
+            if spec.ports.iter().any(|x| x.port as usize == p) {
+                continue;
+            }
+            let mut g = Rng::new(mix_seed(spec.start_pseed, 0xE0 + p as u64));
+            let mut junk = |s: &mut Vec<u8>, o: usize, n: usize| {
+                g.fill(&mut s[o..o + n]);
+                // make sure it is not accidentally decodable: 0xFF is neither UCF 0..2, Shift-JIS nor UTF-8
+                s[o + g.usize_below(n)] = 0xFF;
+                if s[o] == 0 {
+                    s[o] = 0xFF;
+                }
+            };
+            if L::gte(v, (1, 0)) {
+                junk(&mut s, UCF + 8 * p, 8);
+            }
+            if L::gte(v, (1, 3)) {
+                junk(&mut s, NAME_TAG + 16 * p, 16);
+                strings.name_tags[p] = None;
+            }
+            if L::gte(v, (3, 9)) {
+                junk(&mut s, NETPLAY_NAME + 31 * p, 31);
+                junk(&mut s, CONNECT_CODE + 10 * p, 10);
+                strings.netplay_names[p] = None;
+                strings.connect_codes[p] = None;
+            }
+            if L::gte(v, (3, 11)) {
+                junk(&mut s, SLIPPI_UID + 29 * p, 29);
+                strings.suids[p] = None;
+            }
+        }
+    }
     (s, strings)
 }
 
@@ -426,7 +459,7 @@ pub fn normalise(spec: &mut RecorderSpec) {
     if pre22 && spec.ports.is_empty() {
         spec.frames.clear();
     }
-    if !L::gte(v, (3, 3)) && !(spec.force_gecko && L::gte(v, (3, 0))) {
+    if !L::gte(v, (3, 3)) && !spec.force_gecko {
         spec.gecko = None;
     }
     if let Some(g) = &mut spec.gecko {
@@ -484,16 +517,17 @@ pub fn build(spec: &RecorderSpec) -> Model {
     }
     if let Some((_, actual)) = &gecko {
         table.push((L::CODE_GECKO, *actual as u16));
-        table.push((L::CODE_SPLITTER, 516));
+        table.push((L::CODE_SPLITTER, (516 + tr(L::CODE_SPLITTER)) as u16));
     }
     for u in &spec.extras.unknown {
-        if !table.iter().any(|(c, _)| *c == u.code) && !L::KNOWN_CODES.contains(&u.code) && u.size > 0 {
+        if !table.iter().any(|(c, _)| *c == u.code) && !L::KNOWN_CODES.contains(&u.code) {
+            // (size 0 is legal: an event that is nothing but its command byte)
             table.push((u.code, u.size));
         }
     }
     let splitter_ok = L::gte(v, (3, 3));
     if splitter_ok && spec.extras.unknown.iter().any(|u| u.split && !u.after.is_empty()) && !table.iter().any(|(c, _)| *c == L::CODE_SPLITTER) {
-        table.push((L::CODE_SPLITTER, 516));
+        table.push((L::CODE_SPLITTER, (516 + tr(L::CODE_SPLITTER)) as u16));
     }
 
     for (c, sz) in &spec.extras.phantom {
@@ -523,6 +557,12 @@ pub fn build(spec: &RecorderSpec) -> Model {
             ev.push(L::CODE_GECKO);
             let last = k + 1 == blocks;
             ev.push(last as u8);
+            if tr(L::CODE_SPLITTER) > 0 {
+                // a newer version's longer splitter payload
+                let mut x = vec![0u8; tr(L::CODE_SPLITTER)];
+                Rng::new(mix_seed(spec.extras.trailing_pseed, 0x1000 + k as u64)).fill(&mut x);
+                ev.extend_from_slice(&x);
+            }
             base.push(Pending { bytes: ev, occ: None, what: What::Gecko { last } });
         }
     }
@@ -731,6 +771,11 @@ pub fn build(spec: &RecorderSpec) -> Model {
                     ev[515] = u.code;
                     let last = b + 1 == blocks;
                     ev[516] = last as u8;
+                    if tr(L::CODE_SPLITTER) > 0 {
+                        let mut x = vec![0u8; tr(L::CODE_SPLITTER)];
+                        rng.fill(&mut x);
+                        ev.extend_from_slice(&x);
+                    }
                     inserts.entry(k).or_default().push((ev, Some((u.code, last))));
                 }
                 continue;
